@@ -14,7 +14,7 @@ res() { echo "$1" | tee -a $OUT/confirm.log; }
 git -C /repo diff --quiet || { echo "/repo is dirty"; exit 2; }
 # 1
 (cd /tmp/m${ROUND:-}_$ID && go build ./... ) && res "changed tree builds: yes" || res "changed tree builds: NO"
-b=$(VERIF_REPO=/tmp/m${ROUND:-}_$ID python3 /tmp/baseline.py | head -1); res "baseline on changed tree: $b"
+b=$(VERIF_REPO=/tmp/m${ROUND:-}_$ID python3 /verif/lib/baseline.py | head -1); res "baseline on changed tree: $b"
 TREE=/tmp/m${ROUND:-}_$ID; (eval "$DEMO") > $OUT/demo_changed.txt 2>&1; rc1=$?; res "demo on changed tree: exit $rc1 (expected non-zero)"
 # 2
 TREE=/repo; (eval "$DEMO") > $OUT/demo_pristine.txt 2>&1; rc2=$?; res "demo on pristine /repo: exit $rc2 (expected 0)"
